@@ -252,6 +252,10 @@ def eval_eqn(ctx, eqn, ins):
     if name in DATA_MOVE:
         return data_move(eqn, ins, DATA_MOVE[name])
 
+    # integer / boolean computation whose operands are all constants (possibly stored symbolically): make them native
+    if name not in CONTROL and name not in CALL_LIKE and any(is_obj(x) for x in ins):
+        if all(hasattr(v.aval, "dtype") and v.aval.dtype.kind in "iub" for v in list(eqn.invars) + list(eqn.outvars)) and all((not is_obj(x)) or all_const(x) for x in ins):
+            ins = [concretize(x, np.dtype(v.aval.dtype)) if is_obj(x) else x for x, v in zip(ins, eqn.invars)]
     # all-concrete, non-float: run natively
     if all(not is_obj(x) for x in ins) and name not in CONTROL and name not in CALL_LIKE:
         if all(np.asarray(x).dtype.kind in "iub" for x in ins) and all(
@@ -915,6 +919,8 @@ HANDLERS = {
     "le": _cmp("le"),
     "gt": _cmp("gt"),
     "ge": _cmp("ge"),
+    "le_to": _cmp("le"),  # total-order comparisons: identical on the reals (no NaN in real arithmetic)
+    "lt_to": _cmp("lt"),
     "and": _logic("and"),
     "or": _logic("or"),
     "not": h_not,
